@@ -29,13 +29,15 @@ TECHNIQUE = ("Coq proofs over allocation-aware models with an arbitrary allocato
 RULE = ("workloads = fixed boundary corpus (objects crossing the table growth at 12/23 members, arrays crossing 32/64 slots, strings "
         "across the inline threshold and >= 200 bytes, parse texts that allocate at every site, deep copies, pointer sets, patches; containers "
         "whose capacity was left by an earlier fault-free history — parsed, shrunk to fit, shrunk with slack, grown, deep-copied — then each "
-        "modifying route (put/insert/add, pointer set, in-place patch) at first / last / one-past / far index) + "
+        "modifying route (put/insert/add, pointer set, in-place patch) at first / last / one-past / far index; the print-buffer API used "
+        "directly: sprintbuf with eight formats and output lengths 0..5000 around 127|128 and around the current capacity, memappend, memset) + "
         "PRNG-generated trees/texts; every allocation index k of the test part is failed in turn (thorough: + sampled double faults); "
         "a case is non-trivial when N > 0 and at least one k ends in a documented failure; distinct = distinct script line among those")
 TRUSTED = ["Coq 8.16.1 kernel (coqc), no axioms (Print Assumptions: closed under the global context)",
            "extraction (ExtrOcamlBasic only) + ocaml/mdrv glue (ocaml/drv_oom.ml)",
            "harness/drv_oom.c, xalloc.c (compile-time malloc/calloc/realloc/strdup/free renames), gcc -fsanitize=address,undefined",
-           "allocations made by libc on the library's behalf (vasprintf, newlocale/duplocale, snprintf) are not interposed"]
+           "allocations made by libc on the library's behalf (vasprintf, newlocale/duplocale, snprintf) are not interposed: they cannot be "
+           "failed, but they are accounted (sanitizer heap statistics before the run / after the caller released everything)"]
 ASSUMPTIONS = ["a failing allocator returns NULL and leaves existing blocks intact (realloc keeps the old block)",
                "the caller follows the documented ownership rules: a value whose add/insert/set failed is still the caller's and is released by it",
                "faults inside libc's own allocations (vasprintf in sprintbuf/json_pointer_*f, locale objects) are outside the interposed set",
@@ -47,7 +49,8 @@ LEVEL_TEXT = ("Machine-checked, for EVERY input and EVERY allocator behaviour (a
               "as the C code is: json_object_object_add (key copy, table growth with its two allocations, roll-back) — no block leaked, none freed "
               "twice, table unchanged on failure; the serializer over the fallible print buffer — a returned text is the fault-free text; the "
               "tokener's attach step (array/object add of the finished child) — the child is released exactly once when attaching fails; the "
-              "constructors with roll-back (new_double_s, new_object, new_array, printbuf_new, tokener_new).  Each repaired defect has a negative "
+              "constructors with roll-back (new_double_s, new_object, new_array, printbuf_new, tokener_new); sprintbuf with its vasprintf temporary on "
+              "either side of the 128-byte stack buffer (contents per C19, the temporary released exactly once on every path).  Each repaired defect has a negative "
               "control: the original code shape is kept as a second definition with a *_refuted theorem whose witness is evaluated by vm_compute. "
               "PARTIAL: the tokener's other allocation sites (token buffer appends, node constructors, member-name copy inside the state machine), "
               "json_tokener_parse_verbose / json_object_from_fd_ex, deep copy, JSON pointer get/set, JSON patch, json_object_get_string of a "
@@ -195,6 +198,28 @@ def corpus():
     add("get_string", ["b0=i123456789"], ["gs0"])
     add("get_string", ["b0=" + arr_n(40)], ["gs0"])
     add("get_string", ["b0=d400921fb54442d18"], ["gs0"])
+    # ---- the print-buffer API used directly (public header): sprintbuf's two branches — the 128-byte stack
+    #      buffer (output <= 127) and the vasprintf temporary (output >= 128) — with several formats, on a fresh
+    #      32-byte buffer and on buffers pre-filled so that also short outputs must grow; memappend / memset too
+    def ps(f, sbytes, d):
+        return "Ps%d,%s,%d" % (f, hx(sbytes), d)
+    for ln in (0, 1, 30, 31, 32, 126, 127, 128, 129, 200, 255, 256, 300, 1000, 5000):
+        add("sprintbuf", ["Pn"], [ps(0, b"x" * ln, 0)])
+        add("sprintbuf", ["Pn", "Pa" + hx(b"p" * 20)], [ps(0, b"y" * ln, 0)])
+    for ln in (120, 121, 122, 200, 700):                                  # "head:<" + s + ">" is ln + 7 bytes
+        add("sprintbuf", ["Pn"], [ps(2, b"z" * ln, 0)])
+    for w in (1, 31, 127, 128, 129, 400, 3000):                           # one %d conversion of w bytes
+        add("sprintbuf", ["Pn"], [ps(4, b"", w)])
+        add("sprintbuf", ["Pn", "Pa" + hx(b"q" * 31)], [ps(6, b"ab", w)])
+    for ln in (10, 60, 61, 62, 63, 64, 200):                              # mixed: s|d|s is 2*ln + 2 + digits
+        add("sprintbuf", ["Pn"], [ps(5, b"m" * ln, -12345)])
+        add("sprintbuf", ["Pn"], [ps(3, b"k" * (2 * ln), 2147483647)])
+        add("sprintbuf", ["Pn", "Pa" + hx(LONG[:100])], [ps(7, b"t" * (2 * ln), 1000)])
+    add("sprintbuf", ["Pn"], [ps(1, b"", -2147483647), ps(0, b"a" * 128, 0), ps(0, b"b" * 127, 0), ps(2, b"c" * 600, 0), ps(1, b"", 5)])
+    add("sprintbuf", ["Pn", ps(0, b"a" * 300, 0), "Pr"], [ps(0, b"b" * 300, 0), ps(0, b"c" * 400, 0)])   # re-used, already grown
+    add("sprintbuf", [], ["Pn", ps(0, b"a" * 200, 0), "Pf"])
+    add("printbuf", ["Pn"], ["Pa" + hx(LONG), "Pm-1,120,40", "Pm700,65,3", "Pa" + hx(LONG * 3)])
+    add("printbuf", ["Pn"], ["Pm0,66,31", "Pm0,66,32", "Pm0,66,33", "Pr", "Pa" + hx(b"x" * 31), "Pa-"])
     # ---- parsing: every allocation site
     texts = [
         b'{"a":1,"b":[true,null,2.5,"x\\ny"],"c":{"d":{}}} ',
@@ -305,6 +330,42 @@ def gen_random(rng, n, doubles=0):
             kind, setup, test = "r_set_string", ["b0=s" + hx(bytes(rng.randrange(1, 256) for _ in range(l0)))], steps
             if rng.random() < 0.6:
                 setup, test = setup + steps[:-1], steps[-1:]
+        elif r < 0.955:
+            # the print-buffer API: a random fault-free prefix, then sprintbuf / memappend / memset calls whose output
+            # lengths straddle the stack-buffer limit (127 | 128) and the current capacity
+            setup, test, cap, pos = ["Pn"], [], 32, 0
+
+            def pbop():
+                nonlocal cap, pos
+                c = rng.random()
+                room = cap - pos
+                ln = max(0, rng.choice([0, 1, room - 2, room - 1, room, room + 1, 126, 127, 128, 129, 130, 255, 256, 257,
+                                        rng.randint(0, 140), rng.randint(100, 160), rng.randint(0, 900), 3000]))
+                if c < 0.55:
+                    f = rng.choice([0, 0, 2, 3, 5, 7])
+                    fixed = {0: 0, 2: 7, 3: 3, 5: 4, 7: 12}[f]
+                    n_ = max(0, (ln - fixed) // (2 if f == 5 else 1))
+                    o, out = "Ps%d,%s,%d" % (f, hx(bytes(rng.randrange(0x21, 0x7f) for _ in range(n_))), rng.choice([7, 0, -1, 1000])), ln
+                elif c < 0.70:
+                    o, out = "Ps%d,%s,%d" % (rng.choice([4, 6]), hx(b"ab"), max(1, ln)), max(1, ln) + 1
+                elif c < 0.75:
+                    o, out = "Ps1,-,%d" % rng.choice([0, -5, 2147483647, -2147483647]), 11
+                elif c < 0.9:
+                    o, out = "Pa" + hx(bytes(rng.randrange(1, 256) for _ in range(min(ln, 700)))), min(ln, 700)
+                elif c < 0.97:
+                    o, out = "Pm-1,%d,%d" % (rng.randrange(256), min(ln, 500)), min(ln, 500)
+                else:
+                    pos = 0
+                    return "Pr"
+                pos += out
+                while cap <= pos + 1:
+                    cap = max(cap * 2, pos + 9)
+                return o
+            for _ in range(rng.randint(0, 3)):
+                setup.append(pbop())
+            for _ in range(rng.randint(1, 3)):
+                test.append(pbop())
+            kind = "r_printbuf"
         elif r < 0.97:
             # a container left by a random fault-free history, then one operation at a boundary position
             n_ = rng.choice([1, 2, 3, 5, 16, 31, 32, 33, 64])
@@ -367,7 +428,7 @@ def gen(rng, tier):
 
 
 # ------------------------------------------------------------------ oracle
-TOK = re.compile(r"^([0-9+^]+):(N|F|D)(\d*):([uc-])(-?\d+)$")
+TOK = re.compile(r"^([0-9+^]+):(N|F|D)(\d*):([uc-])(-?\d+)(?:h(-?\d+))?$")
 
 
 def parse_obs(o):
@@ -380,7 +441,8 @@ def parse_obs(o):
             tm = TOK.match(t)
             if not tm:
                 return None
-            toks.append(dict(k=tm.group(1), cls=tm.group(2), op=int(tm.group(3)) if tm.group(3) else -1, owned=tm.group(4), leak=int(tm.group(5))))
+            toks.append(dict(k=tm.group(1), cls=tm.group(2), op=int(tm.group(3)) if tm.group(3) else -1, owned=tm.group(4), leak=int(tm.group(5)),
+                             hidden=int(tm.group(6)) if tm.group(6) else 0))
     return dict(n=int(m.group(1)), base=m.group(2), toks=toks, dumpalloc=bool(m.group(4)))
 
 
@@ -400,8 +462,10 @@ def findings(line_, impl):
 
     def put(cls, msg):
         res.setdefault(cls, msg)
-    if "!LEAK" in ob["base"]:
+    if "!LEAK" in ob["base"] or "!HLEAK" in ob["base"]:
         put("leak", "the fault-free run leaks: " + ob["base"][-20:])
+    if "!UNSTABLE" in ob["base"]:
+        put("malformed", "two fault-free runs of the workload differ: " + ob["base"][-40:])
     ks = line_.split(" ")[1]
     if ks == "*" and len(ob["toks"]) != ob["n"]:
         put("malformed", "expected %d fault runs, got %d" % (ob["n"], len(ob["toks"])))
@@ -418,6 +482,10 @@ def findings(line_, impl):
         if t["leak"] != 0:
             cls = "object_add_key_leak" if opk == "oa" else "parse_child_leak" if opk in ("tp", "tv", "ff") else "leak"
             put(cls, "%d block(s) still live after the caller released everything, " % t["leak"] + where)
+        elif t["hidden"] != 0:
+            cls = "object_add_key_leak" if opk == "oa" else "parse_child_leak" if opk in ("tp", "tv", "ff") else "leak"
+            put(cls, "%d byte(s) obtained outside the controlled allocator (vasprintf, ...) still allocated after the caller "
+                     "released everything, " % t["hidden"] + where)
     return sorted(res.items(), key=lambda kv: KNOWN_CLASSES_ORDER.index(kv[0]))
 
 
